@@ -80,6 +80,7 @@ def generate(seed: int, tier: str, phase: str) -> Dict[str, Any]:
             ops.append({"op": "analyse", "k": r.randrange(3), "gseed": r.randrange(4), "recurse": r.random() < 0.75})
         plan["ops"] = ops
         return plan
+    plan["f64"] = r.random() < 0.25  # the whole module and its inputs in float64
     if r.random() < 0.4:
         ops.append({"op": "other", "oseed": r.randrange(1 << 30), "n": r.choice([1, 2])})
     kinds = ["bwd", "bwd", "fwd", "bwd_subset", "reset"]  # no torch.no_grad() runs: a grad-mode switch compiles a second graph (see ASSUMPTIONS)
@@ -108,7 +109,7 @@ def stats(t: Any) -> Dict[str, float]:
     ab = np.abs(a)
     out = {"mean_abs": float(ab.mean()) if n else float("nan"), "abs_mean": float(abs(a.mean())) if n else float("nan"),
            "abs_max": float(ab.max()) if n else float("nan"), "abs_min": float(ab.min()) if n else float("nan"),
-           "numel": n}
+           "numel": n, "f64": str(t.dtype) == "torch.float64"}
     out["std_unbiased"] = float(a.std(ddof=1)) if n > 1 else float("nan")
     out["std_biased"] = float(a.std(ddof=0)) if n else float("nan")
     return out
@@ -125,10 +126,13 @@ def _close(x: float, y: float, rel: float = 1e-5) -> bool:
 
 
 def metrics_mismatch(data: Any, ref: Dict[str, float]) -> Optional[str]:
+    # statistics of a float64 tensor are reductions in float64: compared five orders tighter
+    f64 = bool(ref.get("f64"))
+    rel = 1e-10 if f64 else 1e-5
     for f in ("mean_abs", "abs_mean", "abs_max", "abs_min"):
-        if not _close(float(getattr(data, f)), ref[f]):
+        if not _close(float(getattr(data, f)), ref[f], rel):
             # |mean| suffers cancellation: compare it relative to mean|x|
-            if f == "abs_mean" and abs(float(data.abs_mean) - ref[f]) <= 1e-5 * max(ref["mean_abs"], 1e-30):
+            if f == "abs_mean" and abs(float(data.abs_mean) - ref[f]) <= rel * max(ref["mean_abs"], 1e-30):
                 continue
             return f"{f}: recorded {getattr(data, f)!r}, recomputed {ref[f]!r}"
     if int(data.numel) != ref["numel"]:
@@ -136,12 +140,13 @@ def metrics_mismatch(data: Any, ref: Dict[str, float]) -> Optional[str]:
     s = float(data.std)
     # a float32 standard deviation goes through squared deviations: below sqrt(float32 min normal)
     # ~ 1e-19 it cannot be resolved (an implementation via var().sqrt() legitimately returns 0)
-    tiny = abs(s) <= 2e-19 and ref["std_biased"] <= 2e-19
+    tiny_floor = 1e-150 if f64 else 2e-19
+    tiny = abs(s) <= tiny_floor and ref["std_biased"] <= tiny_floor
     # a float32 std of a (nearly) constant tensor carries the rounding of the mean: an absolute
     # error of a few float32 ulps of the largest element
-    floor = 2e-6 * ref["abs_max"] if not math.isnan(ref["abs_max"]) else 0.0
+    floor = (1e-12 if f64 else 2e-6) * ref["abs_max"] if not math.isnan(ref["abs_max"]) else 0.0
     near = any(not math.isnan(r_) and abs(s - r_) <= floor for r_ in (ref["std_unbiased"], ref["std_biased"]))
-    if not (tiny or near or _close(s, ref["std_unbiased"]) or _close(s, ref["std_biased"])):
+    if not (tiny or near or _close(s, ref["std_unbiased"], rel) or _close(s, ref["std_biased"], rel)):
         return f"std: recorded {s!r}, recomputed {ref['std_unbiased']!r} (unbiased) / {ref['std_biased']!r}"
     return None
 
@@ -221,6 +226,10 @@ def execute(plan: Dict[str, Any]) -> Dict[str, Any]:
     res["opseq"].append("prog:" + sig)
     original = programs.ProgModule(spec)
     inputs = [programs.make_inputs(spec, 90 + k) for k in range(3)]
+    if plan.get("f64") and plan["phase"] != "analyse":
+        original = original.double()
+        inputs = [[t.double() if t.is_floating_point() else t for t in ins] for ins in inputs]
+        probe("float64_modules")
     try:
         if plan["phase"] == "analyse":
             _analyse(plan, spec, original, inputs, res, log, probe, states, sig)
